@@ -36,6 +36,161 @@ extern "C" {
     fn riti_config_set_fixed_old_kar_order(ptr: *mut Config, option: bool);
     fn riti_config_set_ansi_encoding(ptr: *mut Config, option: bool);
     fn riti_config_set_smart_quote(ptr: *mut Config, option: bool);
+    fn riti_context_new_with_config(ptr: *const Config) -> *mut RitiContext;
+    fn riti_context_free(ptr: *mut RitiContext);
+    fn riti_get_suggestion_for_key(ptr: *mut RitiContext, key: u16, modifier: u8, selection: u8) -> *mut Suggestion;
+    fn riti_context_candidate_committed(ptr: *mut RitiContext, index: usize);
+    fn riti_context_update_engine(ptr: *mut RitiContext, config: *const Config);
+    fn riti_context_ongoing_input_session(ptr: *mut RitiContext) -> bool;
+    fn riti_context_finish_input_session(ptr: *mut RitiContext);
+    fn riti_context_backspace_event(ptr: *mut RitiContext, ctrl: bool) -> *mut Suggestion;
+    fn riti_suggestion_free(ptr: *mut Suggestion);
+    fn riti_suggestion_get_suggestion(ptr: *const Suggestion, index: usize) -> *mut c_char;
+    fn riti_suggestion_get_lonely_suggestion(ptr: *const Suggestion) -> *mut c_char;
+    fn riti_suggestion_get_auxiliary_text(ptr: *const Suggestion) -> *mut c_char;
+    fn riti_suggestion_get_pre_edit_text(ptr: *const Suggestion, index: usize) -> *mut c_char;
+    fn riti_string_free(ptr: *mut c_char);
+    fn riti_suggestion_previously_selected_index(ptr: *const Suggestion) -> usize;
+    fn riti_suggestion_get_length(ptr: *const Suggestion) -> usize;
+    fn riti_suggestion_is_lonely(ptr: *const Suggestion) -> bool;
+    fn riti_suggestion_is_empty(ptr: *const Suggestion) -> bool;
+}
+
+// ---- allocation accounting (for the C-interface life-cycle op): live blocks and bytes of this process
+struct Counting;
+static LIVE_BLOCKS: std::sync::atomic::AtomicIsize = std::sync::atomic::AtomicIsize::new(0);
+static LIVE_BYTES: std::sync::atomic::AtomicIsize = std::sync::atomic::AtomicIsize::new(0);
+
+unsafe impl std::alloc::GlobalAlloc for Counting {
+    unsafe fn alloc(&self, l: std::alloc::Layout) -> *mut u8 {
+        let p = std::alloc::System.alloc(l);
+        if !p.is_null() {
+            LIVE_BLOCKS.fetch_add(1, std::sync::atomic::Ordering::Relaxed);
+            LIVE_BYTES.fetch_add(l.size() as isize, std::sync::atomic::Ordering::Relaxed);
+        }
+        p
+    }
+    unsafe fn dealloc(&self, p: *mut u8, l: std::alloc::Layout) {
+        LIVE_BLOCKS.fetch_sub(1, std::sync::atomic::Ordering::Relaxed);
+        LIVE_BYTES.fetch_sub(l.size() as isize, std::sync::atomic::Ordering::Relaxed);
+        std::alloc::System.dealloc(p, l)
+    }
+    unsafe fn realloc(&self, p: *mut u8, l: std::alloc::Layout, n: usize) -> *mut u8 {
+        let q = std::alloc::System.realloc(p, l, n);
+        if !q.is_null() {
+            LIVE_BYTES.fetch_add(n as isize - l.size() as isize, std::sync::atomic::Ordering::Relaxed);
+        }
+        q
+    }
+}
+
+#[global_allocator]
+static ALLOC: Counting = Counting;
+
+/// One full life cycle through the C interface only: config -> context -> events -> read-outs -> frees.
+/// Every returned string is compared with what the Rust API of the same Suggestion reports, is checked again after the
+/// context has moved on (`late_free`), and is then given to riti_string_free. Returns the mismatches.
+unsafe fn ffi_cycle_once(cfg: &Config, desc: &Value, env: &mut Env, mism: &mut Vec<String>, nstrings: &mut usize) -> Result<(), String> {
+    let late = b(desc, "late_free", false);
+    let cfgp = Box::into_raw(Box::new(cfg.clone()));
+    let ctx = riti_context_new_with_config(cfgp);
+    let mut held: Vec<(*mut c_char, Vec<u8>, String)> = Vec::new();
+    let mut held_sugs: Vec<*mut Suggestion> = Vec::new();
+    let empty = Vec::new();
+    for (n, ev) in desc["events"].as_array().unwrap_or(&empty).iter().enumerate() {
+        let mut sug: *mut Suggestion = std::ptr::null_mut();
+        if let Some(k) = ev.get("key").and_then(|x| x.as_u64()) {
+            let m = ev.get("mod").and_then(|x| x.as_u64()).unwrap_or(0) as u8;
+            let sel = ev.get("sel").and_then(|x| x.as_u64()).unwrap_or(0) as u8;
+            sug = riti_get_suggestion_for_key(ctx, k as u16, m, sel);
+        } else if let Some(c) = ev.get("backspace").and_then(|x| x.as_bool()) {
+            sug = riti_context_backspace_event(ctx, c);
+        } else if let Some(i) = ev.get("commit").and_then(|x| x.as_u64()) {
+            riti_context_candidate_committed(ctx, i as usize);
+        } else if ev.get("finish").is_some() {
+            riti_context_finish_input_session(ctx);
+        } else if let Some(c2) = ev.get("update") {
+            let c2 = build_config(c2, env)?;
+            let p2 = Box::into_raw(Box::new(c2));
+            riti_context_update_engine(ctx, p2);
+            riti_config_free(p2);
+        }
+        let _ = riti_context_ongoing_input_session(ctx);
+        if sug.is_null() {
+            continue;
+        }
+        let rs: &Suggestion = &*sug;
+        let mut got: Vec<(*mut c_char, Vec<u8>, String)> = Vec::new();
+        if riti_suggestion_is_lonely(sug) != rs.is_lonely() || riti_suggestion_is_empty(sug) != rs.is_empty() {
+            mism.push(format!("event {}: is_lonely / is_empty differ from the Rust value", n));
+        }
+        if rs.is_lonely() {
+            got.push((riti_suggestion_get_lonely_suggestion(sug), rs.get_lonely_suggestion().as_bytes().to_vec(), format!("event {} lonely suggestion", n)));
+            got.push((riti_suggestion_get_pre_edit_text(sug, 0), rs.get_pre_edit_text(0).into_bytes(), format!("event {} pre-edit text", n)));
+        } else {
+            let len = riti_suggestion_get_length(sug);
+            if len != rs.len() {
+                mism.push(format!("event {}: length {} but the Rust value has {}", n, len, rs.len()));
+            }
+            if riti_suggestion_previously_selected_index(sug) != rs.previously_selected_index() {
+                mism.push(format!("event {}: preselected index differs from the Rust value", n));
+            }
+            got.push((riti_suggestion_get_auxiliary_text(sug), rs.get_auxiliary_text().as_bytes().to_vec(), format!("event {} auxiliary text", n)));
+            for i in 0..rs.len() {
+                got.push((riti_suggestion_get_suggestion(sug, i), rs.get_suggestions()[i].as_bytes().to_vec(), format!("event {} candidate {}", n, i)));
+                got.push((riti_suggestion_get_pre_edit_text(sug, i), rs.get_pre_edit_text(i).into_bytes(), format!("event {} pre-edit text {}", n, i)));
+            }
+        }
+        for g in got.iter() {
+            check_cstr(g, mism);
+        }
+        *nstrings += got.len();
+        if late {
+            held.extend(got);
+            held_sugs.push(sug);
+        } else {
+            for g in got {
+                riti_string_free(g.0);
+            }
+            riti_suggestion_free(sug);
+        }
+    }
+    // read-outs of earlier suggestions after the context has moved on
+    for sp in held_sugs.iter() {
+        let rs: &Suggestion = &**sp;
+        if !rs.is_lonely() && rs.len() > 0 {
+            let p = riti_suggestion_get_suggestion(*sp, rs.len() - 1);
+            let g = (p, rs.get_suggestions()[rs.len() - 1].as_bytes().to_vec(), "late read-out".to_string());
+            check_cstr(&g, mism);
+            riti_string_free(p);
+        }
+    }
+    riti_context_free(ctx);
+    riti_config_free(cfgp);
+    // strings and suggestions outlive the context they came from
+    for g in held.iter() {
+        check_cstr(g, mism);
+    }
+    for g in held {
+        riti_string_free(g.0);
+    }
+    for sp in held_sugs {
+        riti_suggestion_free(sp);
+    }
+    riti_string_free(std::ptr::null_mut());
+    riti_suggestion_free(std::ptr::null_mut());
+    Ok(())
+}
+
+unsafe fn check_cstr(g: &(*mut c_char, Vec<u8>, String), mism: &mut Vec<String>) {
+    if g.0.is_null() {
+        mism.push(format!("{}: null pointer", g.2));
+        return;
+    }
+    let got = std::ffi::CStr::from_ptr(g.0).to_bytes();
+    if got != &g.1[..] {
+        mism.push(format!("{}: C read-out {:?} but the Rust API reports {:?}", g.2, String::from_utf8_lossy(got), String::from_utf8_lossy(&g.1)));
+    }
 }
 
 static LAST_PANIC: Mutex<Option<String>> = Mutex::new(None);
@@ -433,6 +588,45 @@ fn run_scenario(sc: &Value) -> Value {
                 let e = emojicon::Emojicon::new();
                 let v: Option<Vec<String>> = e.get_by_name(t).map(|i| i.map(|s| s.to_string()).collect());
                 r.insert("emoji".into(), json!(v));
+            }
+            "ffi_cycle" => {
+                // warm-up run(s) first so that lazily initialised statics do not count, then one measured run
+                match build_config(&st["config"], &mut env) {
+                    Err(e) => {
+                        r.insert("error".into(), json!(e));
+                    }
+                    Ok(cfg) => {
+                        let mut mism: Vec<String> = Vec::new();
+                        let mut nstrings = 0usize;
+                        let warm = st.get("warmups").and_then(|x| x.as_u64()).unwrap_or(2);
+                        let mut failed = None;
+                        for _ in 0..warm {
+                            let mut m2 = Vec::new();
+                            let mut n2 = 0usize;
+                            if let Err(p) = guarded(|| unsafe { ffi_cycle_once(&cfg, st, &mut env, &mut m2, &mut n2) }) {
+                                failed = Some(p);
+                            }
+                        }
+                        mism.reserve(64);
+                        let b0 = LIVE_BLOCKS.load(std::sync::atomic::Ordering::SeqCst);
+                        let y0 = LIVE_BYTES.load(std::sync::atomic::Ordering::SeqCst);
+                        let res = guarded(|| unsafe { ffi_cycle_once(&cfg, st, &mut env, &mut mism, &mut nstrings) });
+                        let b1 = LIVE_BLOCKS.load(std::sync::atomic::Ordering::SeqCst);
+                        let y1 = LIVE_BYTES.load(std::sync::atomic::Ordering::SeqCst);
+                        if let Err(p) = res {
+                            failed = Some(p);
+                        }
+                        if let Some(p) = failed {
+                            r.insert("panic".into(), json!(p));
+                        }
+                        // the mismatch messages themselves are allocations of this driver: subtract them
+                        let own: isize = mism.iter().map(|m| m.capacity() as isize).sum();
+                        r.insert("net_blocks".into(), json!(b1 - b0 - mism.len() as isize));
+                        r.insert("net_bytes".into(), json!(y1 - y0 - own));
+                        r.insert("strings".into(), json!(nstrings));
+                        r.insert("mismatches".into(), json!(mism));
+                    }
+                }
             }
             "emoji_bengali" => {
                 let t = st["text"].as_str().unwrap_or("");
